@@ -6,14 +6,15 @@ namespace GoCo.Facts
 
 theorem facts_seq_iter :
     Extracted.h_seq_iter__type_pair = Expect.h_seq_iter__type_pair ∧
+    Extracted.h_seq_iter__type_integer = Expect.h_seq_iter__type_integer ∧
     Extracted.h_seq_iter__NewIntegerIter = Expect.h_seq_iter__NewIntegerIter ∧
     Extracted.h_seq_iter__NewStringIter = Expect.h_seq_iter__NewStringIter ∧
     Extracted.h_seq_iter__NewSliceIter = Expect.h_seq_iter__NewSliceIter ∧
     Extracted.h_seq_iter__NewMapIter = Expect.h_seq_iter__NewMapIter ∧
     Extracted.h_seq_iter__NewChanIter = Expect.h_seq_iter__NewChanIter ∧
     Extracted.h_seq_iter__type_integerIter = Expect.h_seq_iter__type_integerIter ∧
-    Extracted.h_seq_iter___integerIter_MoveNext = Expect.h_seq_iter___integerIter_MoveNext ∧
-    Extracted.h_seq_iter___integerIter_Current = Expect.h_seq_iter___integerIter_Current ∧
+    Extracted.h_seq_iter___integerIter_N__MoveNext = Expect.h_seq_iter___integerIter_N__MoveNext ∧
+    Extracted.h_seq_iter___integerIter_N__Current = Expect.h_seq_iter___integerIter_N__Current ∧
     Extracted.h_seq_iter__type_stringIter = Expect.h_seq_iter__type_stringIter ∧
     Extracted.h_seq_iter___stringIter_MoveNext = Expect.h_seq_iter___stringIter_MoveNext ∧
     Extracted.h_seq_iter___stringIter_Current = Expect.h_seq_iter___stringIter_Current ∧
